@@ -34,6 +34,7 @@
  */
 #include "verif.hxx"
 #include "refmath.hxx"
+#include <limits>
 #include <vector>
 #include <algorithm>
 #include <type_traits>
@@ -127,7 +128,19 @@ namespace {
     if (reversed) c.tag("reversed");
     c.nontrivial(n >= 3 && d != 0);
     // ---- call
+    // the output container is an input too: callers reuse it, so it may come in with any size and content
     Vector v;
+    {
+      std::size_t m = 0;
+      switch (c.pick(4, "previous_size")) {
+        case 0: c.tag("out.empty"); break;
+        case 1: m = static_cast<std::size_t>(c.integer(1, static_cast<long>(n), "m_smaller")); c.tag("out.smaller"); break;
+        case 2: m = n + 1; c.tag("out.same"); break;
+        default: m = n + 1 + static_cast<std::size_t>(c.integer(1, 50, "m_excess")); c.tag("out.larger"); break;
+      }
+      v.resize(static_cast<typename Vector::size_type>(m));
+      for (auto& e : v) e = std::numeric_limits<T>::quiet_NaN();
+    }
     tfel::math::geometricDiscretization(v, xb, xe, db, de,
                                         static_cast<typename Vector::size_type>(n));
     // ---- predicate
